@@ -56,8 +56,9 @@ def no_declared_any(ct, R: Any) -> Any:
                      patterns=[M.lat(R, j)])
 
 
-@contract(ANY, "AnySchema._flatten_schemas", props=("C13", "C10", "C07"), group="combinators")
+@contract(ANY, "AnySchema._flatten_schemas", props=("C13", "C10", "C07", "C17"), group="combinators")
 def _flatten(c):
+    c.reproducible()      # C17: the schema built does not depend on the interpreter's hash seed
     ct = c.ct
     c.sym("self", "AnySchema")
     t = c.sym("schemas", "tuple")
@@ -97,8 +98,9 @@ _REG.axiom_fns.append(_any_unfold_axioms)
 
 
 # ----------------------------------------------------------------------------- AnySchema.__call__ / union
-@contract(ANY, "AnySchema.__call__", props=("C13", "C10", "C07"), group="combinators")
+@contract(ANY, "AnySchema.__call__", props=("C13", "C10", "C07", "C17"), group="combinators")
 def _any_call(c):
+    c.reproducible()      # C17: the schema built does not depend on the interpreter's hash seed
     ct = c.ct
     Sx = c.sym("self", "AnySchema")
     t0 = c.sym("type_")
@@ -139,8 +141,9 @@ def _inv_any_call(L):
     return z3.ForAll([j], z3.Implies(z3.And(0 <= j, j < L.i), S.is_schema(ct, M.lat(t, j))), patterns=[M.lat(t, j)])
 
 
-@contract(DECL, "union", props=("C13",), group="combinators")
+@contract(DECL, "union", props=("C13", "C17"), group="combinators")
 def _union(c):
+    c.reproducible()      # C17: the schema built does not depend on the interpreter's hash seed
     ct = c.ct
     a = c.sym("self")
     b = c.sym("other")
@@ -156,8 +159,9 @@ def _union(c):
 
 
 # ----------------------------------------------------------------------------- alias
-@contract(FAC, "SchemaFacade.alias", props=("C13",), group="combinators")
+@contract(FAC, "SchemaFacade.alias", props=("C13", "C17"), group="combinators")
 def _alias(c):
+    c.reproducible()      # C17: the schema built does not depend on the interpreter's hash seed
     ct = c.ct
     c.declare("self", "SchemaFacade")
     n, t = c.sym("name"), c.sym("type_")
@@ -178,8 +182,9 @@ def keys_or_empty(Sx: Any):
     return (lambda x: z3.And(d, M.has(K, x))), (lambda x: M.dget(K, x))
 
 
-@contract(DICT, "DictSchema.__add__", props=("C13", "C07"), group="combinators")
+@contract(DICT, "DictSchema.__add__", props=("C13", "C07", "C17"), group="combinators")
 def _dict_add(c):
+    c.reproducible()      # C17: the schema built does not depend on the interpreter's hash seed
     ct = c.ct
     a = c.sym("self", "DictSchema")
     b = c.sym("other")
@@ -247,8 +252,9 @@ def member_of(ct, keys: Any, k: Any) -> Any:
                  z3.Exists([j], z3.And(0 <= j, j < M.llen(keys), M.py_eq(M.lat(keys, j), k)), patterns=[M.lat(keys, j)]))
 
 
-@contract(MKR, "make_required", props=("C13", "C07"), group="combinators")
+@contract(MKR, "make_required", props=("C13", "C07", "C17"), group="combinators")
 def _make_required(c):
+    c.reproducible()      # C17: the schema built does not depend on the interpreter's hash seed
     ct = c.ct
     d = c.sym("schema", "DictSchema")    # dispatch hint only: the body checks isinstance first
     ks = c.sym("keys")
@@ -310,6 +316,9 @@ def _inv_mkreq_build(L):
     pair, pair2 = M.dget(pk, x), M.dget(up, x)
     return z3.And(
         M.is_Ref(up), M.rcls(up) == ct.id("dict"),
+        # ... in the same order (C17: the key order of the result is that of the declared keys)
+        M.klen(up) == L.i,
+        z3.ForAll([j], z3.Implies(z3.And(0 <= j, j < L.i), M.kat(up, j) == M.kat(pk, j)), patterns=[M.kat(up, j)]),
         z3.ForAll([x], M.has(up, x) == z3.And(M.has(pk, x), M.kidx(pk, x) < L.i), patterns=[M.has(up, x)]),
         z3.ForAll([x], z3.Implies(M.has(up, x), z3.And(
             M.is_Ref(pair2), M.rcls(pair2) == ct.id("tuple"), M.llen(pair2) == 2,
